@@ -33,7 +33,8 @@ def render(d, h):
         out.append("  optionWrites := [\n    " + ",\n    ".join(write(w) for w in (s.get("option_writes") or [])) + "],")
         out.append("  ctorWrites := [\n    " + ",\n    ".join(write(w) for w in (s.get("ctor_writes") or [])) + "],")
         out.append("  otherWrites := [\n    " + ",\n    ".join(write(w) for w in (s.get("other_writes") or [])) + "],")
-        out.append("  entries := [\n    " + ",\n    ".join(entry(e) for e in (s.get("entries") or [])) + "] }\n")
+        out.append("  entries := [\n    " + ",\n    ".join(entry(e) for e in (s.get("entries") or [])) + "],")
+        out.append("  ptrUses := [\n    " + ",\n    ".join("{ field := %s, func := %s, events := %s }" % (L(u["field"]), L(u["func"]), sl(u.get("events"))) for u in (s.get("ptr_uses") or [])) + "] }\n")
         return out
 
     lines = ["import ShVerif.Model.C08", "namespace ShVerif.Gen.C08", "open ShVerif.C08", ""]
